@@ -21,7 +21,7 @@ PROPERTY = "C13"
 RULE = (
     "every string of: `$`.T^<=k token strings, single-edit neighbours and prefixes of the "
     "190-query corpus, scaling families (10 nesting constructs x depth 1..32 plus unbalanced "
-    "variants, 14 repeatable constructs x lengths 1,2,3,4,8,...,1024 chars, 40 extreme numbers); "
+    "variants, 14 repeatable constructs x lengths 1,2,3,4,8,...,1024 chars, 40 extreme numbers), 6 function names x 0..3 arguments over 7 argument shapes x 4 positions; "
     "compile() under a watchdog; every compiled query is applied to 47 JSON kinds x 3 "
     "placements; non-trivial = strings that are not valid queries (error paths) "
     "plus every evaluation of a compiled query; distinct by construction"
@@ -106,7 +106,25 @@ def shards(tier):
     out += [{"space": "nest", "d": d} for d in range(1, 33)]
     out += [{"space": "rep", "n": n} for n in lengths()]
     out.append({"space": "num"})
+    out += [{"space": "calls", "name": n} for n in CALL_NAMES]
     return out
+
+
+CALL_NAMES = ["length", "count", "match", "search", "value", "nosuch"]
+CALL_SHAPES = ["1", "'s'", "@.a", "@.*", "!@.a", "(@.a == 1)", "count(@.*)"]
+
+
+def calls(name):
+    """every call of a built-in (or unknown) function with 0..3 arguments over 7 argument shapes,
+    well-typed or not, in test / negated / compared / nested position"""
+    import itertools
+    for n in range(0, 4):
+        for args in itertools.product(CALL_SHAPES, repeat=n):
+            call = f"{name}({', '.join(args)})"
+            yield f"$[?{call}]"
+            yield f"$[?!{call} || @.a]"
+            yield f"$[?{call} == 1]"
+            yield f"$[?length({call}) < 2 && count(@[?{call}]) > 0]"
 
 
 def strings_of(desc):
@@ -117,6 +135,8 @@ def strings_of(desc):
         yield from repeats(desc["n"])
     elif sp == "num":
         yield from numbers()
+    elif sp == "calls":
+        yield from calls(desc["name"])
     else:
         yield from lang.strings_of(desc)
 
